@@ -53,20 +53,22 @@ structure WInvX (x : Option Nat) (w : World) : Prop where
   /-- a connecting protocol waits for a handshake whose Deferred has not fired and whose timeout is running
       (unless the timeout has already failed it: `dfd = none`) -/
   connecting : ∀ p pr, w.protos.get? p = some pr → pr.state = .connecting →
-      ∃ cr c, pr.connReq = some cr ∧ w.connReqs.get? cr = some c ∧
+      ∃ cr c, pr.connReq = some cr ∧ w.connReqs.get? cr = some c ∧ c.proto = p ∧
         ∀ d, c.dfd = some d → d ∉ w.fired ∧ Pending w c.alarm (.connack cr)
   connReq : ∀ cr c d, w.connReqs.get? cr = some c → c.dfd = some d → d ∉ w.fired →
       d < w.nextDfd ∧ ∀ e ∈ w.ents, (w.req e.rid).dfd ≠ some d
   connReqInj : ∀ cr cr' c c' d, w.connReqs.get? cr = some c → w.connReqs.get? cr' = some c' →
       c.dfd = some d → c'.dfd = some d → cr = cr'
   connReqFresh : ∀ cr c d, w.connReqs.get? cr = some c → c.dfd = some d → d < w.nextDfd
+  /-- a running handshake timeout belongs to an unfired handshake whose protocol is still connecting (or lost) -/
   connackOwned : ∀ t cr, Pending w t (.connack cr) →
-      ∃ c d, w.connReqs.get? cr = some c ∧ c.dfd = some d ∧ d ∉ w.fired ∧ c.alarm = t
+      ∃ c d, w.connReqs.get? cr = some c ∧ c.dfd = some d ∧ d ∉ w.fired ∧ c.alarm = t ∧
+        ∃ pr, w.protos.get? c.proto = some pr ∧ (pr.lost = true ∨ (pr.state = .connecting ∧ pr.connReq = some cr))
   /-- C13/C18: a pending retry timer belongs to a protocol whose loss has not been reported -/
   retryLive : ∀ t p rid, Pending w t (.retry p rid) → ∃ pr, w.protos.get? p = some pr ∧ pr.lost = false
   /-- the Deferred of the handshake a protocol object still refers to has not fired -/
-  connReqLive : ∀ p pr cr c d, w.protos.get? p = some pr → pr.connReq = some cr → w.connReqs.get? cr = some c →
-      c.dfd = some d → d ∉ w.fired
+  connReqLive : ∀ p pr cr c, w.protos.get? p = some pr → pr.connReq = some cr → w.connReqs.get? cr = some c →
+      c.proto = p ∧ ∀ d, c.dfd = some d → d ∉ w.fired
   /-- SUBSCRIBE/UNSUBSCRIBE requests exist only with a running retry timer (they never survive a connection) -/
   subArmed : ∀ e ∈ w.ents, (e.box = .sub ∨ e.box = .unsub) → (w.req e.rid).alarm = none →
       ∃ p pr, x = some p ∧ w.protos.get? p = some pr ∧ pr.addr = e.addr
